@@ -5,6 +5,7 @@ import (
 	"github.com/invopop/gobl/currency"
 	"github.com/invopop/gobl/l10n"
 	"github.com/invopop/gobl/num"
+	"github.com/invopop/validation"
 )
 
 // CategoryTotal groups together all rates inside a given category.
@@ -38,6 +39,31 @@ type RateTotal struct {
 	Surcharge *RateTotalSurcharge `json:"surcharge,omitempty" jsonschema:"title=Surcharge"`
 	// Total amount of rate, excluding surcharges
 	Amount num.Amount `json:"amount" jsonschema:"title=Amount"`
+}
+
+// Validate checks the rate key, country and extensions of the rate total.
+func (rt *RateTotal) Validate() error {
+	return validation.ValidateStruct(rt,
+		validation.Field(&rt.Key),
+		validation.Field(&rt.Country),
+		validation.Field(&rt.Ext),
+	)
+}
+
+// Validate checks the category code and the rates of the category total.
+func (ct *CategoryTotal) Validate() error {
+	return validation.ValidateStruct(ct,
+		validation.Field(&ct.Code),
+		validation.Field(&ct.Rates),
+	)
+}
+
+// Validate checks the codes, keys and extensions used in the totals; the
+// amounts are the result of a calculation and are not checked here.
+func (t *Total) Validate() error {
+	return validation.ValidateStruct(t,
+		validation.Field(&t.Categories),
+	)
 }
 
 // RateTotalSurcharge reflects the sum surcharges inside the rate.
